@@ -4,7 +4,7 @@
    under a `_partial` twin (see DESIGN.md section 9). *)
 From Coq Require Import List String Bool Permutation.
 Import ListNotations.
-From DI Require Import Syntax Tokens Bounds Param Subs Superset Substitute Spec RustSem Group Search Validate IMap Hygiene Dispatch Examples ExamplesGroup.
+From DI Require Import Syntax Tokens Bounds Param Subs Superset Substitute Spec RustSem Group Search Validate IMap Hygiene Dispatch Examples ExamplesGroup ExamplesF16.
 From DI.proofs Require Import Basics SupersetSound SupersetExact SupersetComplete SupersetWf SubstituteProofs SubstituteSpec BoundsProofs DispatchProofs GroupProofs SearchProofs ParamProofs ParamAlpha RustSemProofs ValidateProofs IMapProofs HygieneProofs.
 
 (* ===================================================================================== *)
@@ -286,6 +286,25 @@ Theorem C05_selected_perm : forall (Q V : Type) keyvals (ms ms' : list (member Q
   Permutation (selected Q V keyvals ms q) (selected Q V keyvals ms' q).
 Proof. exact selected_perm. Qed.
 Print Assumptions C05_selected_perm.
+
+(* the search itself is NOT independent of the block order (known finding F16): for the same
+   three blocks the families it forms are {B0, B2}, {B1} in one order and {B0, B1}, {B2} in
+   another (one of the two nested members is split off; rustc then rejects one of the orders).
+   The witness is the one `check C05` reports as KNOWN-FINDING. *)
+Definition families_of (blocks : list term) : option (list (list term)) :=
+  option_map (map (fun e => map (fun i => nth i blocks (Node (K "" "") [])) (snd (snd e))))
+             (search (4 * List.length blocks + 8) blocks).
+
+Theorem C05_search_order_independence_refuted :
+  exists a b, Permutation a b /\
+    families_of a = Some [[f16_b0; f16_b2]; [f16_b1]] /\
+    families_of b = Some [[f16_b0; f16_b1]; [f16_b2]].
+Proof.
+  exists [f16_b0; f16_b1; f16_b2], [f16_b0; f16_b2; f16_b1]. split.
+  - apply perm_skip. apply perm_swap.
+  - split; vm_compute; reflexivity.
+Qed.
+Print Assumptions C05_search_order_independence_refuted.
 
 (* ===================================================================================== *)
 (* C13 -- parameter canonicalisation                                                       *)
